@@ -120,7 +120,21 @@ func (a *activityManager) dispatch() {
 		}
 		log := new(raft.Log)
 		if err := raftNode.store.GetLog(index, log); err != nil {
-			panic(err)
+			// The entry may have been removed by Raft log compaction, e.g.
+			// because the last published index lies behind a snapshot and
+			// was not recovered or because the activity stream was enabled
+			// on a cluster with a compacted log. Events for compacted
+			// entries can no longer be published, so continue from the
+			// first entry that is still in the log.
+			first, firstErr := raftNode.store.FirstIndex()
+			if err != raft.ErrLogNotFound || firstErr != nil || index >= first {
+				panic(err)
+			}
+			a.logger.Warnf("Raft log has been compacted and starts at index "+
+				"%d, resuming activity stream from there instead of index %d",
+				first, index)
+			index = first
+			continue
 		}
 		if log.Type != raft.LogCommand {
 			index++
